@@ -3,7 +3,7 @@
 tier=${1:-quick}
 for p in C01 C02 C03 C04 C05 C06 C07 C08 C09 C10 C11 C12 C13 C14 C15 C16 C17 C18 C19; do
   s=$(date +%s)
-  out=$(python3 /verif/bin/check --property $p --tier $tier 2>&1); rc=$?
+  out=$(python3 "$(dirname "$0")/check" --property $p --tier $tier 2>&1); rc=$?
   e=$(( $(date +%s) - s ))
   echo "$p rc=$rc ${e}s $(echo "$out" | grep -c '^KNOWN-FINDING') known $(echo "$out" | grep -m1 -E '^VIOLATION|TOOL-ERROR' | cut -c1-160)"
 done
